@@ -3,6 +3,7 @@ package kvx15
 import (
 	"context"
 	"sync"
+	"time"
 
 	"go.etcd.io/etcd/clientv3"
 )
@@ -19,6 +20,7 @@ type EtcdKV struct {
 }
 
 type erule struct {
+	delay   time.Duration // PassSlow
 	mode    Mode
 	parked  chan struct{}
 	release chan Mode
@@ -71,18 +73,38 @@ func (k *EtcdKV) Release(who string, m Mode) {
 	r.release <- m
 }
 
+// SetDelay: how long etcd takes over a transaction of `who` released with PassSlow.
+func (k *EtcdKV) SetDelay(who string, d time.Duration) {
+	k.mu.Lock()
+	k.ruleOf(who).delay = d
+	k.mu.Unlock()
+}
+
 func (k *EtcdKV) Txn(ctx context.Context) clientv3.Txn {
-	return &etxn{k: k, inner: k.KV.Txn(ctx)}
+	// `late` is the same transaction on a context of its own: what etcd does with a proposal it has accepted does not
+	// depend on whether the client that sent it is still waiting
+	return &etxn{k: k, ctx: ctx, inner: k.KV.Txn(ctx), late: k.KV.Txn(context.Background())}
 }
 
 type etxn struct {
 	k     *EtcdKV
+	ctx   context.Context
 	inner clientv3.Txn
+	late  clientv3.Txn
 }
 
-func (t *etxn) If(cs ...clientv3.Cmp) clientv3.Txn   { t.inner = t.inner.If(cs...); return t }
-func (t *etxn) Then(ops ...clientv3.Op) clientv3.Txn { t.inner = t.inner.Then(ops...); return t }
-func (t *etxn) Else(ops ...clientv3.Op) clientv3.Txn { t.inner = t.inner.Else(ops...); return t }
+func (t *etxn) If(cs ...clientv3.Cmp) clientv3.Txn {
+	t.inner, t.late = t.inner.If(cs...), t.late.If(cs...)
+	return t
+}
+func (t *etxn) Then(ops ...clientv3.Op) clientv3.Txn {
+	t.inner, t.late = t.inner.Then(ops...), t.late.Then(ops...)
+	return t
+}
+func (t *etxn) Else(ops ...clientv3.Op) clientv3.Txn {
+	t.inner, t.late = t.inner.Else(ops...), t.late.Else(ops...)
+	return t
+}
 
 func (t *etxn) Commit() (*clientv3.TxnResponse, error) {
 	k := t.k
@@ -101,6 +123,32 @@ func (t *etxn) Commit() (*clientv3.TxnResponse, error) {
 		m = <-r.release
 	}
 	switch m {
+	case PassSlow:
+		type res struct {
+			r *clientv3.TxnResponse
+			e error
+		}
+		ch := make(chan res, 1)
+		d := r.delay
+		go func() {
+			time.Sleep(d)
+			x, e := t.late.Commit()
+			ch <- res{x, e}
+		}()
+		select {
+		case x := <-ch:
+			return x.r, x.e
+		case <-t.ctx.Done():
+			return nil, t.ctx.Err()
+		}
+	case PassHold:
+		// etcd applies the transaction; a winner does not learn it yet
+		resp, err := t.inner.Commit()
+		if err == nil && resp.Succeeded {
+			r.parked <- struct{}{}
+			<-r.release
+		}
+		return resp, err
 	case FailBefore:
 		return nil, ErrInjected
 	case FailAfter:
